@@ -776,6 +776,7 @@ theorem enterThis_eq (E : Env) (g : GoVal) (h : OKVal g) :
 def pathThis : Path → List GoVal
   | .valueCall (some g) => [g]
   | .ottoCallThis _ g => [g]
+  | .ottoCallNew (some g) => [g]
   | _ => []
 
 /-- Value.Call, Object.Call and Otto.Call (both forms) hand the callee the same `this` and the same
@@ -794,6 +795,30 @@ theorem call_equiv (E : Env) (p : Path) (args : List GoVal)
   | objectCall => rfl
   | ottoCallNil m => cases m <;> rfl
   | ottoCallThis m g => exact enterThis_eq E g (hthis g (by simp [pathThis]))
+  | ottoCallNew t =>
+    cases t with
+    | none => rfl
+    | some g =>
+      obtain ⟨j, hj⟩ := hthis g (by simp [pathThis])
+      simp [apiThis, hj, Res.map, Res.bind, enterThis, Spec.langThis, Spec.enterThis]
+
+/-- The same for callees with side effects and for BOTH exits: through every API path the callee is
+    invoked exactly once, with the `this` and arguments of the equivalent in-language call, and its
+    completion – the returned value or the thrown exception – is what the caller gets. -/
+theorem call_equiv_exits (E : Env) (p : Path) (b : Exit) (args : List GoVal)
+    (hthis : ∀ g ∈ pathThis p, OKVal g) (hargs : ∀ g ∈ args, OKVal g) :
+    apiRun E p b args = Spec.langRun E p b args ∧
+    ∀ r, apiRun E p b args = .ok r → r.invocations.length = 1 := by
+  refine ⟨by simp only [apiRun, Spec.langRun, call_equiv E p args hthis hargs], fun r hr => ?_⟩
+  simp only [apiRun] at hr
+  cases hc : apiCall E p args with
+  | ok tv => rw [hc] at hr; simp only [Res.map, Res.ok.injEq] at hr; subst hr; rfl
+  | typeError => rw [hc] at hr; cases hr
+  | panic => rw [hc] at hr; cases hr
+  | err => rw [hc] at hr; cases hr
+
+-- a throwing method called through Otto.Call(src, nil): one invocation, this = the object, the TypeError reaches the caller
+example : apiRun env0 (.ottoCallNil true) .throwTypeError [] = .ok ⟨[.self], .throwErr "TypeError" .self 1⟩ := by decide
 
 example : OKVal (.ptr (.sc true (.f32 one))) := ⟨_, rfl⟩
 
